@@ -12,6 +12,8 @@ import IsoDT.Model.Truncated
 import IsoDT.Driver.Text
 import IsoDT.Driver.DurText
 import IsoDT.Driver.Cli
+import IsoDT.Driver.Strftime
+import IsoDT.Driver.Construct
 
 open IsoDT IsoDT.Model
 open IsoDT.Spec (Date TZ TP)
@@ -313,8 +315,10 @@ def tpOps : List String := ["add", "sub", "addmonths", "tick", "tz", "hash", "ha
 def extDispatch (toks : List String) : Option String :=
   (none : Option String)
   <|> IsoDT.Driver.Cli.dispatch toks
+  <|> IsoDT.Driver.Construct.dispatch toks
   <|> IsoDT.Driver.DurText.dispatch toks
   <|> IsoDT.Driver.Text.dispatch toks
+  <|> IsoDT.Driver.Strftime.dispatch toks
   -- <|> IsoDT.Driver.Foo.dispatch toks
 
 def dispatch (toks : List String) : String :=
